@@ -74,9 +74,18 @@ PROPS["C14"] = dict(T(12000, 40, 600000, 900),
     note=NOTE + " The helper clause is input-driven (no schedule, clock or fault enters); only the transmission clause is decided by simulation proper.",
     rule="Scenario: single writer, message carriers and reader behaviours from the tape; distinct = distinct (carrier plan, schedule).")
 
+PROPS["C17"] = dict(T(20000, 40, 1000000, 900),
+    text="transport.NewTransport over a simulated net.Conn for the four variants x buffer sizes {0,1,7,16,64,4096}: a writer task issues a seeded sequence of Write/Writev/Flush with payload sizes around the buffer sizes while a peer feeds inbound chunks that a reader task pulls through the wrapper with varying buffer sizes and tape-driven short reads. After every Flush the peer has received exactly the bytes written so far; at all times what the peer has is a prefix of what was written in call order; Read yields exactly the peer's bytes.",
+    note=NOTE + " Nothing is asserted about bytes still buffered without a Flush (the property speaks only of what holds once Flush has returned).",
+    rule="Scenario: one writer task, one reader task, one peer task on one wrapper; distinct = distinct (variant, op sequence, fragmentation, schedule).")
+PROPS["C04"] = dict(T(16000, 40, 800000, 900),
+    text="An encoder channel and a decoder channel joined by the simulated connection (or, for decoder configurations the shipped encoder cannot produce, a peer feeding the harness' reference wire in tape-chosen pieces): length-field 1/2/4/8 x both byte orders x strip counts, stand-alone prepender with its matching decoder, offset/adjustment configurations, varint, delimiter, fixed length; 1-8 payloads of sizes around 255/256, 65535/65536, the configured maximum, pool classes; carriers []byte, *bytes.Buffer, bytes.Reader, string, fragmenting reader; the decoder reads through byte-wise / random / mixed fragmentation while the encoder is still writing, so it blocks mid-header and mid-body. Oracle: every encode call either raises and emits nothing or emits exactly the reference encoding; delivered frames equal the reference decode in order, one per frame, and the stream offset after each frame equals the frame end.",
+    note=NOTE + " The harness' reference encoder/decoder (sim/harness/frames.go) is written independently of the codecs. Payload values are generated input; what simulation decides is the fragmentation/blocking/stream-position half.",
+    rule="Scenario: codec configuration, payload sizes/carriers, feed pieces and read fragmentation from the tape.")
+
 NOT_APPLICABLE = {
     "C03": "Pipeline order and routing are pure functions of the build program and the event: the handler list is immutable after build and traversed by whichever goroutine delivers the event; no schedule, clock, fault or I/O behaviour enters. Simulation would only be relabelled input generation (DESIGN.md section 3, C03).",
     "C19": "pool.Pool adds no concurrency, time or I/O of its own: shard choice is arithmetic on sizes, mutual exclusion is entirely sync.Pool's, which the simulator has to replace by a stub, so simulated concurrent use would exercise the stub and not the repository (DESIGN.md section 3, C19).",
 }
-for _p in ["C04", "C08", "C15", "C16", "C17"]:
+for _p in ["C08", "C15", "C16"]:
     NOT_APPLICABLE.setdefault(_p, "check under construction in this session (planned as applicable, DESIGN.md section 3); not claimed until it runs clean")
